@@ -144,23 +144,22 @@ PrintableChar(c) ==
   \/ c \in {32, 39, 40, 41, 43, 44, 45, 46, 47, 58, 61, 63}
 PrintableOK(b, h) == \A k \in h.lo..h.hi : PrintableChar(b[k])
 IA5OK(b, h)       == \A k \in h.lo..h.hi : b[k] < 128
-\* well-formed UTF-8 (shortest form, no surrogates, <= U+10FFFF)
-RECURSIVE Utf8From(_, _, _)
-Utf8From(b, k, hi) ==
-  IF k > hi THEN TRUE
-  ELSE LET c == b[k] IN
-       IF c < 128 THEN Utf8From(b, k + 1, hi)
-       ELSE IF c >= 194 /\ c <= 223 THEN k + 1 <= hi /\ b[k + 1] \in 128..191 /\ Utf8From(b, k + 2, hi)
-       ELSE IF c >= 224 /\ c <= 239 THEN
-              /\ k + 2 <= hi /\ b[k + 1] \in 128..191 /\ b[k + 2] \in 128..191
-              /\ (c = 224 => b[k + 1] >= 160) /\ (c = 237 => b[k + 1] <= 159)
-              /\ Utf8From(b, k + 3, hi)
-       ELSE IF c >= 240 /\ c <= 244 THEN
-              /\ k + 3 <= hi /\ b[k + 1] \in 128..191 /\ b[k + 2] \in 128..191 /\ b[k + 3] \in 128..191
-              /\ (c = 240 => b[k + 1] >= 144) /\ (c = 244 => b[k + 1] <= 143)
-              /\ Utf8From(b, k + 4, hi)
-       ELSE FALSE
-Utf8OK(b, h) == Utf8From(b, h.lo, h.hi)
+\* well-formed UTF-8 (shortest form, no surrogates, <= U+10FFFF), stated position by position (no recursion):
+\* every lead octet is followed by its continuation octets, every continuation octet belongs to a lead octet
+Cont(c)    == c >= 128 /\ c <= 191
+LeadLen(c) == IF c < 128 THEN 1 ELSE IF c >= 194 /\ c <= 223 THEN 2 ELSE IF c >= 224 /\ c <= 239 THEN 3
+              ELSE IF c >= 240 /\ c <= 244 THEN 4 ELSE 0
+Utf8OK(b, h) ==
+  \A k \in h.lo..h.hi :
+     IF Cont(b[k])
+     THEN \E j \in {k - 1, k - 2, k - 3} :
+             /\ j >= h.lo /\ ~Cont(b[j]) /\ LeadLen(b[j]) > k - j
+             /\ \A m \in (j + 1)..(k - 1) : Cont(b[m])
+     ELSE LET n == LeadLen(b[k]) IN
+          /\ n > 0 /\ k + n - 1 <= h.hi
+          /\ \A m \in (k + 1)..(k + n - 1) : Cont(b[m])
+          /\ (b[k] = 224 => b[k + 1] >= 160) /\ (b[k] = 237 => b[k + 1] <= 159)
+          /\ (b[k] = 240 => b[k + 1] >= 144) /\ (b[k] = 244 => b[k + 1] <= 143)
 
 (***************************************************************************)
 (* Generic canonicity walk: every TLV in b[lo..hi], at any depth, has a    *)
